@@ -147,3 +147,42 @@ prop('C18', 'panics in user code leave the container consistent',
      'helping transaction (TXN-CLOSED); the writer reservation is RAII and spans help and pay (RAII-SPAN); the protocol '
      'resource types have Drop impls.',
      'That the container still holds a legitimately stored value as a run-time fact; only that no write to the cell or a slot is left half-done when user code runs.')
+
+from . import isolation as I
+
+prop('C12', 'containers are isolated',
+     [I.rule_addr_guard, I.rule_addr_before_gen, I.rule_own_storage, O.rule_pay_cas, O.rule_mp],
+     'Decides: a helper produces and hands over a replacement only when the reader\'s published address, re-read in the '
+     'same retry iteration, equals the address of the cell being written, and the exchange expects exactly the '
+     'generation that was matched (ADDR-GUARD, GEN-REVALIDATE); the reader publishes the address before the generation '
+     '(ADDR-BEFORE-GEN); every API method hands the strategy its own cell and strategy, and the replacement closure loads '
+     'from that same cell (OWN-STORAGE); debts are keyed by pointer value and cleared only by the pointer-keyed CAS '
+     '(PAY-CAS); each hand-over envelope has one owner after the exchange (MP, their-space-before-exchange).',
+     'Behaviour of interleavings across containers is NOT decided.')
+
+from . import nodelist as N
+
+_ORD_C11 = {'inuse-claim', 'inuse-cooldown', 'inuse-cooldown-check', 'writers-enter', 'writers-leave', 'head-traverse-load', 'head-publish'}
+
+
+def _ord_c11(fx, col):
+    O.rule_ord_with_floors(fx, col, only_roles=_ORD_C11)
+
+
+def _raii_only(fx, col):
+    sub = Collector(col.cfg)
+    R.rule_cover_all(fx, sub)
+    col.obs.extend(o for o in sub.obs if o.rule in ('RAII-SPAN',) or (o.rule == 'FLOOR' and 'pay walks' in o.key) or o.rule == 'ANCHOR')
+
+
+prop('C11', 'thread churn is safe and bounded',
+     [O.rule_inuse_fsm, N.rule_reuse_first, T.rule_cooldown_owned, _raii_only, _ord_c11, T.rule_node_some, P.rule_next_once],
+     'Decides: the ownership flag of a node only moves along the four legal edges, the release edge guarded by '
+     'in_use == COOLDOWN and active_writers == 0 and performed by compare_exchange (INUSE-FSM); a node is allocated only '
+     'after a complete failed attempt to reuse one, is initialised before it is published, and is claimed only by a '
+     'successful UNUSED->USED exchange (REUSE-FIRST); a thread that lets go of its node detaches the handle and never uses '
+     'the cooled node again, LocalNode::drop cools the node down (COOLDOWN-OWNED); writers are counted in for the whole '
+     'visit including the helper call (RAII-SPAN); the Acquire/Release rows of ORD on in_use / active_writers / LIST_HEAD; '
+     'the thread\'s handle is attached whenever library code runs, also on the TLS-destroyed path (NODE-SOME); the list '
+     'is prepend-only with next written once before publication (NEXT-ONCE).',
+     'The numeric bound (at most peak-threads nodes) and exclusivity of a node under all interleavings are NOT decided; the rules are the code-shape reasons for both.')
